@@ -12,6 +12,7 @@ from . import env
 
 VERIF = env.VERIF
 KNOWN_FINDINGS_FILE = os.path.join(VERIF, "known_findings.jsonl")
+OUT = os.environ.get("VERIF_OUT", VERIF)     # where evidence/ and replays/ go (mutant runs use a scratch directory)
 NSHARDS = int(os.environ.get("VERIF_SHARDS", "16"))
 
 
@@ -249,12 +250,12 @@ def ddmin(items, still_fails, budget):
 
 
 def write_replay(prop_id, violation):
-    d = os.path.join(VERIF, "replays", prop_id)
+    d = os.path.join(OUT, "replays", prop_id)
     os.makedirs(d, exist_ok=True)
     path = os.path.join(d, hash_of(violation["case"]) + ".json")
     with open(path, "w") as f:
         f.write(json.dumps(violation, indent=1, sort_keys=True, default=_default))
-    return os.path.relpath(path, VERIF)
+    return os.path.relpath(path, VERIF) if OUT == VERIF else path
 
 
 def replay_corpus(mod, ctx_factory):
@@ -409,8 +410,8 @@ def main_check(mod, tier, replay_path=None):
     coverage.update(extra)
     evidence = {"property_id": mod.ID, "tier": tier, "seed": seed, "level": "exploration", "coverage": coverage,
                 "assumptions": list(mod.ASSUMPTIONS), "wall_s": round(wall, 2), "violations": nviol}
-    os.makedirs(os.path.join(VERIF, "evidence"), exist_ok=True)
-    with open(os.path.join(VERIF, "evidence", mod.ID + ".json"), "w") as f:
+    os.makedirs(os.path.join(OUT, "evidence"), exist_ok=True)
+    with open(os.path.join(OUT, "evidence", mod.ID + ".json"), "w") as f:
         f.write(json.dumps(evidence, indent=1, sort_keys=True, default=_default) + "\n")
     print("%s %s seed=%d: %d cases, %d distinct non-trivial, %d known-finding hits, %d violation bucket(s), %.1fs"
           % (mod.ID, tier, seed, evaluations, len(nontrivial), sum(known_hits.values()), nviol, wall))
